@@ -127,6 +127,8 @@ fn sizes(ctx: &mut Ctx) {
                     let words = map.len();
                     unsafe {
                         let s = map.as_mut_slice();
+                        // The mutable slice must cover exactly the file: same extent as the immutable view and the file size.
+                        if s.len() != words || words * 8 != size { return Err(format!("as_mut_slice() has {} elements, len() = {}, file has {} bytes", s.len(), words, size)); }
                         for i in 0..words { s[i] = (i as u64).wrapping_mul(0xA24B_AED4_963E_E407) ^ 0x5555; }
                     }
                     drop(map);
